@@ -82,7 +82,7 @@ UNITS = [
          unwind_loops={'moveaxis_to_transpose__rstatic_vector_ul_8_rarr_i_2_rarr_i_2': 3, r'argsort__rarr_\w+_2': 3, 'normalize_axis__rarr_i_2': 3,
                        'lambda_moveaxis_to_transpose_1': 3, 'lambda_moveaxis_to_transpose_2': 3},
          clause='moveaxis (axis lists of length 2, any rank 0..8) = transpose with numpy\'s moveaxis permutation; Nothing iff numpy raises'),
-    Unit('moveaxis_list.bounded', 'c03', 'verif_moveaxis_to_transpose_list', mode='bp', plain=True, unwind=10, unwind_loops={'.': 9}, timeout=1500,
+    Unit('moveaxis_list.bounded', 'c03', 'verif_moveaxis_to_transpose_list', mode='bp', plain=True, unwind=10, unwind_loops={'.': 9}, timeout=1500, object_bits=12,
          bounded='rank <= 8, axis lists of length <= 8 (utl::static_vector<int,8>): every loop unwound to its capacity bound',
          clause='moveaxis (axis lists of any length 0..8) = transpose with numpy\'s moveaxis permutation; Nothing iff numpy raises'),
     Unit('flip_slices3.bp', 'c03', 'verif_flip_slices3', mode='bp', unwind=10, unwind_loops=FLIP, clause='flip(axis): step -1 exactly on axis mod ndim (rank 3)'),
